@@ -490,26 +490,39 @@ Section GetK.
 
   (* (f) on every segment of a strictly increasing table the conductivity is the linear
      interpolant of the two knots, both components *)
+  Lemma last_app_two {T} (pre : list T) a b d : last (pre ++ [a; b]) d = b.
+  Proof.
+    induction pre as [|x pre IH]; [reflexivity|].
+    destruct pre as [|y pre]; [reflexivity|]. exact IH.
+  Qed.
+  Lemma last_app_cons {T} (pre : list T) a rest d : rest <> [] -> last (pre ++ a :: rest) d = last rest d.
+  Proof.
+    intros Hne. induction pre as [|x pre IH].
+    - destruct rest; [congruence|reflexivity].
+    - destruct pre as [|y pre]; simpl app in *; [destruct rest; [congruence|exact IH]|exact IH].
+  Qed.
+
   Theorem getk_on_segment kx ky pre ti ki tj kj post t :
     tk_sorted (pre ++ (ti, ki) :: (tj, kj) :: post) -> ti <= t <= tj ->
     let v := k_interp RA ti ki tj kj t in
     getk RA kx ky (pre ++ (ti, ki) :: (tj, kj) :: post) t = (v, v).
   Proof.
     intros Hs Ht v.
-    set (tk := pre ++ (ti, ki) :: (tj, kj) :: post) in *.
     assert (Hij : ti < tj) by (destruct (tk_sorted_app_r pre _ Hs) as [H _]; exact H).
-    destruct tk as [|[t0 k0] tk'] eqn:Etk; [destruct pre; discriminate|].
+    pose proof (getk_scan_segment ti ki tj kj post t Ht pre Hs) as Hscan.
+    remember (pre ++ (ti, ki) :: (tj, kj) :: post) as tk eqn:Etk.
+    destruct tk as [|[t0 k0] tk']; [destruct pre; discriminate|].
     destruct tk' as [|p tk'']; [destruct pre as [|? [|? ?]]; discriminate|].
     unfold getk. ra_simpl.
     destruct (Rleb t t0) eqn:E0.
     { (* t <= t0: then t = t0 = ti and the segment is the first one *)
       apply Rleb_true in E0. rewrite k_both_R.
       destruct pre as [|[ta ka] pre].
-      - simpl in Etk. injection Etk as -> -> _. assert (t = ti) by lra. subst t.
+      - simpl in Etk. injection Etk as E1 E2 _. subst t0 k0. assert (t = ti) by lra. subst t.
         unfold v. rewrite k_interp_left by lra. reflexivity.
-      - simpl in Etk. injection Etk as -> -> Etk'.
+      - simpl in Etk. injection Etk as E1 E2 Etk'. subst ta ka.
         assert (t0 < ti).
-        { apply (tk_sorted_lt t0 k0 (p :: tk'') Hs ti ki). rewrite <- Etk'.
+        { apply (tk_sorted_lt t0 k0 (p :: tk'') Hs ti ki). rewrite Etk'.
           apply in_or_app. right. left. reflexivity. }
         lra. }
     apply Rleb_false in E0.
@@ -517,36 +530,21 @@ Section GetK.
     destruct (Rleb tl t) eqn:E1.
     { (* tl <= t: then t = tj = tl and the segment is the last one *)
       apply Rleb_true in E1. rewrite k_both_R.
-      assert (Hin : In (tl, kl) ((t0, k0) :: p :: tk'')) by (rewrite <- El; apply last_in; discriminate).
       destruct post as [|[tm km] post].
-      - assert (El' : last (pre ++ [(ti, ki); (tj, kj)]) (t0, k0) = (tj, kj)).
-        { clear. induction pre as [|x pre IH]; [reflexivity|].
-          destruct pre as [|y pre]; [reflexivity|]. exact IH. }
-        rewrite <- Etk in El. rewrite El' in El. injection El as <- <-.
+      - rewrite Etk in El. rewrite last_app_two in El. injection El as <- <-.
         assert (t = tj) by lra. subst t. unfold v. rewrite k_interp_right by lra. reflexivity.
-      - (* tj < tl *)
-        assert (Hjl : tj <= tl).
-        { rewrite <- Etk in El.
-          assert (Hs2 : tk_sorted ((tj, kj) :: (tm, km) :: post)).
-          { apply (tk_sorted_app_r (pre ++ [(ti, ki)])). rewrite <- app_assoc. exact Hs. }
-          assert (El2 : last (pre ++ (ti, ki) :: (tj, kj) :: (tm, km) :: post) (t0, k0) = last ((tm, km) :: post) (t0, k0)).
-          { clear. induction pre as [|x pre IH]; [reflexivity|].
-            destruct pre as [|y pre]; simpl app in *; exact IH. }
-          rewrite El2 in El.
-          assert (Hin2 : In (tl, kl) ((tm, km) :: post)) by (rewrite <- El; apply last_in; discriminate).
-          pose proof (tk_sorted_lt tj kj _ Hs2 tl kl Hin2). lra. }
+      - (* tj < tl <= t <= tj: impossible *)
         assert (Hlt : tj < tl).
-        { rewrite <- Etk in El.
+        { rewrite Etk in El.
           assert (Hs2 : tk_sorted ((tj, kj) :: (tm, km) :: post)).
-          { apply (tk_sorted_app_r (pre ++ [(ti, ki)])). rewrite <- app_assoc. exact Hs. }
-          assert (El2 : last (pre ++ (ti, ki) :: (tj, kj) :: (tm, km) :: post) (t0, k0) = last ((tm, km) :: post) (t0, k0)).
-          { clear. induction pre as [|x pre IH]; [reflexivity|].
-            destruct pre as [|y pre]; simpl app in *; exact IH. }
-          rewrite El2 in El.
+          { apply (tk_sorted_app_r (pre ++ [(ti, ki)])). rewrite <- app_assoc. simpl app. rewrite <- Etk. exact Hs. }
+          replace (pre ++ (ti, ki) :: (tj, kj) :: (tm, km) :: post)
+            with ((pre ++ [(ti, ki)]) ++ (tj, kj) :: (tm, km) :: post) in El by (rewrite <- app_assoc; reflexivity).
+          rewrite last_app_cons in El by discriminate.
           assert (Hin2 : In (tl, kl) ((tm, km) :: post)) by (rewrite <- El; apply last_in; discriminate).
           exact (tk_sorted_lt tj kj _ Hs2 tl kl Hin2). }
         lra. }
-    rewrite <- Etk. rewrite (getk_scan_segment ti ki tj kj post t Ht pre Hs). apply k_both'_R.
+    rewrite Hscan. apply k_both'_R.
   Qed.
 
   (* value at the knots, and continuity there: the pieces on both sides give the knot value *)
@@ -566,3 +564,271 @@ Section GetK.
     k_interp RA ti ki tj kj tj = kj /\ k_interp RA tj kj tm km tj = kj.
   Proof. intros H1 H2. split; [apply k_interp_right|apply k_interp_left]; lra. Qed.
 End GetK.
+
+(* ---------------- the weights of the boundary-edge terms ---------------- *)
+Section EdgeWeights.
+  (* (e) axisymmetric: the entries are -c0 resp. +c1 times 2*PI*l times the exact integrals
+     over the edge of r*phi_a*phi_b and r*phi_a (AsmHInt.v: (3xj+xk)/12, (xj+3xk)/12,
+     (xj+xk)/12, (2xj+xk)/6, (xj+2xk)/6) *)
+  Theorem axi_edge_entries (D c0 c1 l xj xk : R) j : (j < 3)%nat ->
+    let k := nxt j in
+    edge_Me true D c0 l xj xk j j j = - c0 * (2 * PI * l * ((3 * xj + xk) / 12)) /\
+    edge_Me true D c0 l xj xk j k k = - c0 * (2 * PI * l * ((xj + 3 * xk) / 12)) /\
+    edge_Me true D c0 l xj xk j j k = - c0 * (2 * PI * l * ((xj + xk) / 12)) /\
+    edge_Me true D c0 l xj xk j k j = - c0 * (2 * PI * l * ((xj + xk) / 12)) /\
+    edge_be true D c1 l xj xk j j = c1 * (2 * PI * l * ((2 * xj + xk) / 6)) /\
+    edge_be true D c1 l xj xk j k = c1 * (2 * PI * l * ((xj + 2 * xk) / 6)).
+  Proof.
+    intros Hj k. unfold k, edge_Me, edge_be.
+    destruct j as [|[|[|j]]]; try lia; cbn [nxt Nat.eqb andb orb]; repeat split; field.
+  Qed.
+
+  (* planar: -c0 resp. +c1 times Depth*l times 1/3, 1/6, 1/2 (the same integrals with r = 1) *)
+  Theorem planar_edge_entries (D c0 c1 l xj xk : R) j : (j < 3)%nat ->
+    let k := nxt j in
+    edge_Me false D c0 l xj xk j j j = - c0 * (D * l * (1 / 3)) /\
+    edge_Me false D c0 l xj xk j k k = - c0 * (D * l * (1 / 3)) /\
+    edge_Me false D c0 l xj xk j j k = - c0 * (D * l * (1 / 6)) /\
+    edge_Me false D c0 l xj xk j k j = - c0 * (D * l * (1 / 6)) /\
+    edge_be false D c1 l xj xk j j = c1 * (D * l * (1 / 2)) /\
+    edge_be false D c1 l xj xk j k = c1 * (D * l * (1 / 2)).
+  Proof.
+    intros Hj k. unfold k, edge_Me, edge_be.
+    destruct j as [|[|[|j]]]; try lia; cbn [nxt Nat.eqb andb orb]; repeat split; field.
+  Qed.
+End EdgeWeights.
+
+(* ---------------- the scan for nonlinear materials ---------------- *)
+Section Scan.
+  (* with the loop bounded by NumEls the scan finds every element whose block has a table *)
+  Theorem nonlinear_scan_complete {F} (P : hprob (F:=F)) :
+    nonlinear_scan P (scan_bound_fixed P) = true <-> exists i, elem_has_table P i = true.
+  Proof.
+    unfold nonlinear_scan, scan_bound_fixed. rewrite existsb_exists. split.
+    - intros (i & _ & H). exists i. exact H.
+    - intros (i & H). exists i. split; [|exact H].
+      apply in_seq. split; [lia|]. simpl.
+      unfold elem_has_table in H. destruct (nth_error (helems P) i) eqn:E; [|discriminate].
+      apply nth_error_Some. congruence.
+  Qed.
+
+  (* any bound: a positive answer is always justified *)
+  Theorem nonlinear_scan_sound {F} (P : hprob (F:=F)) bound :
+    nonlinear_scan P bound = true -> exists i, (i < bound)%nat /\ elem_has_table P i = true.
+  Proof.
+    unfold nonlinear_scan. rewrite existsb_exists. intros (i & Hin & H). exists i.
+    apply in_seq in Hin. split; [lia|exact H].
+  Qed.
+
+  (* the witness: a triangle with three interior points, 6 nodes and 7 elements; the last
+     element (index 6 >= NumNodes) is the only one whose block has a T-k table *)
+  Definition witness_nodes : list (enode (F:=R)) :=
+    [mkENode 0 0 None None; mkENode 4 0 None None; mkENode 0 4 None None;
+     mkENode 1 1 None None; mkENode 2 1 None None; mkENode 1 2 None None].
+  Definition witness_elems : list eelem :=
+    [mkEElem (1, 2, 5)%nat (None, None, None) 0 0; mkEElem (1, 5, 4)%nat (None, None, None) 0 0;
+     mkEElem (2, 0, 3)%nat (None, None, None) 0 0; mkEElem (2, 3, 5)%nat (None, None, None) 0 0;
+     mkEElem (0, 1, 4)%nat (None, None, None) 0 0; mkEElem (0, 4, 3)%nat (None, None, None) 0 0;
+     mkEElem (3, 4, 5)%nat (None, None, None) 1 1].
+  Definition witness : hprob (F:=R) :=
+    mkHProb false 1 3 0 0 0 0 (1 / 100000000)
+            witness_nodes witness_elems
+            [mkHBlock 1 1 0 0 []; mkHBlock 1 1 0 0 [(300, 1); (400, 2)]]
+            [] [] [] [false; false] [] [].
+
+  Theorem nonlinear_scan_refuted :
+    exists P : hprob (F:=R),
+      (length (hnodes P) < length (helems P))%nat /\
+      (exists i, elem_has_table P i = true) /\
+      nonlinear_scan P (scan_bound_asis P) = false.
+  Proof.
+    exists witness. split; [cbn; lia|]. split; [exists 6%nat; reflexivity|reflexivity].
+  Qed.
+
+  (* when there are no more elements than nodes the as-shipped bound examines all of them *)
+  Theorem nonlinear_scan_asis_complete_small {F} (P : hprob (F:=F)) :
+    (length (helems P) <= length (hnodes P))%nat ->
+    (nonlinear_scan P (scan_bound_asis P) = true <-> exists i, elem_has_table P i = true).
+  Proof.
+    intros Hle. split; [intros H; destruct (nonlinear_scan_sound P _ H) as (i & _ & Hi); exists i; exact Hi|].
+    intros (i & H). unfold nonlinear_scan, scan_bound_asis. apply existsb_exists. exists i. split; [|exact H].
+    apply in_seq. split; [lia|]. simpl.
+    unfold elem_has_table in H. destruct (nth_error (helems P) i) eqn:E; [|discriminate].
+    assert (i < length (helems P))%nat by (apply nth_error_Some; congruence). lia.
+  Qed.
+End Scan.
+
+(* ---------------- the outer iteration ---------------- *)
+Section Outer.
+  Variables (P : hprob (F:=R)) (solve : nat -> lin (F:=R) -> option (vecT R)) (powsf : nat -> list (R * R * R)).
+
+  (* whenever the fuelled outer loop returns, the system it returns is the one assembled by its
+     last pass from the previous iterate Vo, the temperatures are the linear solver's answer
+     for that system, and if the problem was flagged nonlinear (scan or radiation edge) the
+     convergence test sqrt(e1/e2) < 100*Precision accepted the step Vo -> V *)
+  Theorem outer_exit : forall fuel L D nl it L' Q' n,
+    outer RA fuel P solve powsf L D nl it = Some (L', Q', n) ->
+    exists Lp Dp nlp itp,
+      let r := hpass RA P Lp Dp (powsf itp) in
+      let L1 := fst (fst (fst r)) in
+      lM L' = lM L1 /\ lb L' = lb L1 /\ Q' = snd (fst (fst r)) /\
+      solve itp L1 = Some (Sparse.lV L') /\ n = S itp /\ (it <= itp)%nat /\
+      (nl = true -> nlp = true) /\
+      ((nlp || snd r)%bool = true ->
+         outer_converged RA P (firstn (length (hnodes P)) (Sparse.lV Lp)) (Sparse.lV L') = true).
+  Proof.
+    induction fuel as [|fuel IH]; intros L D nl it L' Q' n H; [discriminate|].
+    cbn [outer] in H.
+    destruct (hpass RA P L D (powsf it)) as [[[L1 Q] D'] rad] eqn:Ep.
+    destruct (solve it L1) as [Vn|] eqn:Es; [|discriminate].
+    destruct ((nl || rad)%bool) eqn:Enl.
+    - destruct (outer_converged RA P (firstn (length (hnodes P)) (Sparse.lV L)) Vn) eqn:Ec; cbn [negb] in H.
+      + injection H as <- <- <-. exists L, D, nl, it. rewrite Ep. cbn [fst snd lM lb Sparse.lV].
+        repeat split; auto.
+      + destruct (IH _ _ _ _ _ _ _ H) as (Lp & Dp & nlp & itp & G).
+        exists Lp, Dp, nlp, itp. cbv zeta in G |- *.
+        destruct G as (G1 & G2 & G3 & G4 & G5 & G6 & G7 & G8).
+        repeat split; auto; try lia.
+    - injection H as <- <- <-. exists L, D, nl, it. rewrite Ep. cbn [fst snd lM lb Sparse.lV].
+      repeat split; auto. intros Hx. rewrite Enl in Hx. discriminate.
+  Qed.
+End Outer.
+
+(* ---------------- conductor heat flows ---------------- *)
+Section ConductorFlow.
+  Local Notation vgetR := (vget RA).
+  Variables (P : hprob (F:=R)).
+
+  (* one element's contribution to ChargeOnConductor is the conduction (Galerkin stiffness)
+     reaction of the conductor's nodes in that element, with the conductivity evaluated at
+     the temperatures V:  sum_j Pv[n_j] * sum_k K_e[j][k] * V[n_k] *)
+  Theorem conductor_flow_is_stiffness_reaction Depth V Pv Z el :
+    ga (el_geom (eview RA P) el) <> 0 ->
+    let g := el_geom (eview RA P) el in
+    let De := if haxi P then 2 * PI * gr g else Depth in
+    let kn := kn_of RA P V el in
+    let Ke := fun j k => galerkin_K De (fst kn) (snd kn) g j k in
+    let n := fun j => tri_get (ep el) j in
+    hoc_elem RA P Depth V Pv Z el =
+      Z + (vgetR Pv (n 0%nat) * (Ke 0%nat 0%nat * vgetR V (n 0%nat) + Ke 0%nat 1%nat * vgetR V (n 1%nat) + Ke 0%nat 2%nat * vgetR V (n 2%nat))
+         + vgetR Pv (n 1%nat) * (Ke 1%nat 0%nat * vgetR V (n 0%nat) + Ke 1%nat 1%nat * vgetR V (n 1%nat) + Ke 1%nat 2%nat * vgetR V (n 2%nat))
+         + vgetR Pv (n 2%nat) * (Ke 2%nat 0%nat * vgetR V (n 0%nat) + Ke 2%nat 1%nat * vgetR V (n 1%nat) + Ke 2%nat 2%nat * vgetR V (n 2%nat))).
+  Proof.
+    intros Ha g De kn Ke n. unfold hoc_elem.
+    subst Ke. unfold galerkin_K. subst De kn n. unfold kn_of, cadd. cbv beta.
+    cbn [fold_left].
+    unfold g, el_geom, geom in *. change (nodes (eview RA P)) with (hnodes P) in *.
+    set (blk := nth (eblk el) (hblocks P) (dhblock RA)).
+    set (n0 := tri_get (ep el) 0) in *. set (n1 := tri_get (ep el) 1) in *. set (n2 := tri_get (ep el) 2) in *.
+    set (x0 := nx (nth n0 (hnodes P) (dnode RA))) in *.
+    set (y0 := ny (nth n0 (hnodes P) (dnode RA))) in *.
+    set (x1 := nx (nth n1 (hnodes P) (dnode RA))) in *.
+    set (y1 := ny (nth n1 (hnodes P) (dnode RA))) in *.
+    set (x2 := nx (nth n2 (hnodes P) (dnode RA))) in *.
+    set (y2 := ny (nth n2 (hnodes P) (dnode RA))) in *.
+    set (V0 := vgetR V n0) in *. set (V1 := vgetR V n1) in *. set (V2 := vgetR V n2) in *.
+    set (g0 := getk RA (hkx blk) (hky blk) (htk blk) V0).
+    set (g1 := getk RA (hkx blk) (hky blk) (htk blk) V1).
+    set (g2 := getk RA (hkx blk) (hky blk) (htk blk) V2).
+    set (P0 := vgetR Pv n0) in *. set (P1 := vgetR Pv n1) in *. set (P2 := vgetR Pv n2) in *.
+    clearbody g0 g1 g2 P0 P1 P2 V0 V1 V2 x0 x1 x2 y0 y1 y2.
+    cbn [ga gp gq gr] in *. unfold vget in *. cbn [nth fst snd] in *. ra_simpl.
+    assert (Hda : (y1 - y2) * (x0 - x2) - (y2 - y0) * (x2 - x1) <> 0) by (intro Hz; apply Ha; lra).
+    destruct (Reqb P0 0 && Reqb P1 0 && Reqb P2 0)%bool eqn:E.
+    - apply andb_true_iff in E. destruct E as [E E2]. apply andb_true_iff in E. destruct E as [E0 E1].
+      apply Reqb_true in E0, E1, E2. rewrite E0, E1, E2. field. exact Hda.
+    - destruct (haxi P); field; exact Hda.
+  Qed.
+End ConductorFlow.
+
+(* ---------------- rows of free and of prescribed nodes of the assembled system ---------------- *)
+Section FreeRows.
+  Local Notation vgetR := (vget RA).
+  Variables (P : hprob (F:=R)) (nn : nat) (Vo : vecT R) (extRo extRi extZo : R) (V : vecT R) (Q : list Z).
+
+  (* the sum of the UN-eliminated local residuals (element matrices as built from conduction,
+     transient, source and boundary terms) of the local rows assembled into row i *)
+  Fixpoint hloop_resid_raw (els : list eelem) (D k : R) (pows : list (R * R * R)) (U : vecT R) (i : nat) : R :=
+    match els with
+    | [] => 0
+    | el :: t =>
+        let r := helem_matrices RA P Vo extRo extRi extZo D k pows el in
+        ((if Nat.eqb (tri_get (ep el) 0) i then local_resid (em_Me r) (em_be r) (ep el) U 0 else 0)
+         + (if Nat.eqb (tri_get (ep el) 1) i then local_resid (em_Me r) (em_be r) (ep el) U 1 else 0)
+         + (if Nat.eqb (tri_get (ep el) 2) i then local_resid (em_Me r) (em_be r) (ep el) U 2 else 0))
+        + hloop_resid_raw t (em_D r) (em_k r) (em_pows r) U i
+    end.
+
+  (* the sum of the diagonal entries Me[a][a] of the local rows assembled into row i *)
+  Fixpoint hloop_diag (els : list eelem) (D k : R) (pows : list (R * R * R)) (i : nat) : R :=
+    match els with
+    | [] => 0
+    | el :: t =>
+        let r := helem_matrices RA P Vo extRo extRi extZo D k pows el in
+        ((if Nat.eqb (tri_get (ep el) 0) i then m3get RA (em_Me r) 0 0 else 0)
+         + (if Nat.eqb (tri_get (ep el) 1) i then m3get RA (em_Me r) 1 1 else 0)
+         + (if Nat.eqb (tri_get (ep el) 2) i then m3get RA (em_Me r) 2 2 else 0))
+        + hloop_diag t (em_D r) (em_k r) (em_pows r) i
+    end.
+
+  Lemma hloop_resid_free U i :
+    flagged Q i = false -> (forall j, flagged Q j = true -> vgetR U j = vgetR V j) ->
+    forall els D k pows,
+      hloop_resid P Vo extRo extRi extZo V Q els D k pows U i = hloop_resid_raw els D k pows U i.
+  Proof.
+    intros Hi HU. induction els as [|el els IH]; intros D k pows; [reflexivity|].
+    cbn [hloop_resid hloop_resid_raw]. rewrite IH. f_equal.
+    destruct (helem_matrices_shape P Vo extRo extRi extZo D k pows el)
+      as [(m00 & m01 & m02 & m11 & m12 & m22 & EM) (b0 & b1 & b2 & EB)].
+    rewrite EM, EB. destruct (ep el) as [[n0 n1] n2]. cbn [tri_get].
+    destruct (presc_resid V Q n0 n1 n2 m00 m01 m02 m11 m12 m22 b0 b1 b2 U (HU n0) (HU n1) (HU n2)) as (R0 & R1 & R2).
+    cbv zeta in R0, R1, R2.
+    destruct (Nat.eqb_spec n0 i) as [->|_]; [rewrite R0, Hi|];
+      (destruct (Nat.eqb_spec n1 i) as [->|_]; [rewrite R1, Hi|]);
+      (destruct (Nat.eqb_spec n2 i) as [->|_]; [rewrite R2, Hi|]); reflexivity.
+  Qed.
+
+  Lemma hloop_resid_prescribed U i :
+    flagged Q i = true ->
+    forall els D k pows,
+      hloop_resid P Vo extRo extRi extZo V Q els D k pows U i
+      = (vgetR U i - vgetR V i) * hloop_diag els D k pows i.
+  Proof.
+    intros Hi. induction els as [|el els IH]; intros D k pows; [cbn; ring|].
+    cbn [hloop_resid hloop_diag]. rewrite IH.
+    destruct (helem_matrices_shape P Vo extRo extRi extZo D k pows el)
+      as [(m00 & m01 & m02 & m11 & m12 & m22 & EM) (b0 & b1 & b2 & EB)].
+    rewrite EM, EB. destruct (ep el) as [[n0 n1] n2]. cbn [tri_get].
+    destruct (presc_resid_flagged V Q n0 n1 n2 m00 m01 m02 m11 m12 m22 b0 b1 b2 U) as (R0 & R1 & R2).
+    cbv zeta in R0, R1, R2.
+    replace (m3get RA [m00; m01; m02; m01; m11; m12; m02; m12; m22] 0 0) with m00 by reflexivity.
+    replace (m3get RA [m00; m01; m02; m01; m11; m12; m02; m12; m22] 1 1) with m11 by reflexivity.
+    replace (m3get RA [m00; m01; m02; m01; m11; m12; m02; m12; m22] 2 2) with m22 by reflexivity.
+    destruct (Nat.eqb_spec n0 i) as [->|_]; [rewrite (R0 Hi)|];
+      (destruct (Nat.eqb_spec n1 i) as [->|_]; [rewrite (R1 Hi)|]);
+      (destruct (Nat.eqb_spec n2 i) as [->|_]; [rewrite (R2 Hi)|]); ring.
+  Qed.
+
+  (* the assembled rows: for every U that takes the prescribed values, the row of a free node is
+     the un-eliminated residual; the row of a prescribed node is d_i*(U_i - prescribed_i) for
+     EVERY U, with d_i the sum of the diagonal entries of the elements around the node *)
+  Theorem assembled_rows_free_and_prescribed U els s :
+    mat_wf (hsM s) -> length (hsb s) = length (hsM s) ->
+    Forall (elem_ok (eview RA P) nn (length (hsM s))) els ->
+    let s' := fold_left (helem_step RA P nn Vo extRo extRi extZo V Q) els s in
+    forall i, (i < length (hsM s))%nat ->
+      (flagged Q i = false -> (forall j, flagged Q j = true -> vgetR U j = vgetR V j) ->
+         Ax (hsM s') U i - vgetR (hsb s') i =
+         (Ax (hsM s) U i - vgetR (hsb s) i) - hloop_resid_raw els (hsDepth s) (hsKludge s) (hsPows s) U i) /\
+      (flagged Q i = true ->
+         Ax (hsM s') U i - vgetR (hsb s') i =
+         (Ax (hsM s) U i - vgetR (hsb s) i)
+         - (vgetR U i - vgetR V i) * hloop_diag els (hsDepth s) (hsKludge s) (hsPows s) i).
+  Proof.
+    intros Hwf Hb Hok s' i Hi.
+    destruct (hloop_rows P nn Vo extRo extRi extZo V Q U els s Hwf Hb Hok) as (_ & _ & _ & HR).
+    fold s' in HR. split.
+    - intros Hf HU. rewrite (HR i Hi). rewrite hloop_resid_free by assumption. reflexivity.
+    - intros Hf. rewrite (HR i Hi). rewrite hloop_resid_prescribed by assumption. reflexivity.
+  Qed.
+End FreeRows.
